@@ -397,13 +397,25 @@ fn c07_regions(g: &Arc<Grammar>, d: usize, cfgs: &[Cfg], all_spellings: bool) ->
             let mut depth = 0i32;
             let mut boundary = vec![false; n + 1];
             boundary[0] = true;
+            // (a `;` inside an anonymous routine that is part of a larger expression is no boundary)
+            let mut blocks: Vec<bool> = vec![];
             for (i, t) in toks.iter().enumerate() {
                 match t.text.as_str() {
                     "(" | "[" | "<" => depth += 1,
                     ")" | "]" | ">" => depth -= 1,
                     _ => {}
                 }
-                boundary[i + 1] = t.text == ";" && depth == 0;
+                let mut inherited = false;
+                if t.marks & crate::grammar::M_C != 0 {
+                    inherited = blocks.pop().unwrap_or(false);
+                }
+                if t.marks & crate::grammar::M_O != 0 {
+                    blocks.push(t.marks & crate::grammar::M_A != 0 || (t.marks & crate::grammar::M_C != 0 && inherited));
+                }
+                for _ in 0..t.pop_o {
+                    blocks.pop();
+                }
+                boundary[i + 1] = t.text == ";" && depth == 0 && !blocks.iter().any(|a| *a);
             }
             for i in 0..=n {
                 if i < n && frozen[i] {
